@@ -45,7 +45,7 @@ class Worker:
         self.t0 = None
 
 
-def run_jobs(fn, args, nworkers, deadline=None, job_timeout=None):
+def run_jobs(fn, args, nworkers, deadline=None, job_timeout=None, grace=300):
     """Run fn(arg) for every arg in forked workers.
 
     Yields (index, status, payload): status 'ok' -> payload is the result;
@@ -107,6 +107,17 @@ def run_jobs(fn, args, nworkers, deadline=None, job_timeout=None):
                 if not w.proc.is_alive():
                     code = w.proc.exitcode
                     yield w.job, 'crashed', (-code if code is not None and code < 0 else 'exit %r' % code)
+                    running -= 1
+                    workers[i] = Worker(ctx, fn)
+                    continue
+                if deadline is not None and time.time() > deadline + grace:
+                    # grace period after the time budget is over as well: give the job up (not an error)
+                    try:
+                        os.kill(w.proc.pid, signal.SIGKILL)
+                    except OSError:
+                        pass
+                    w.proc.join(5)
+                    yield w.job, 'deadline', None
                     running -= 1
                     workers[i] = Worker(ctx, fn)
                     continue
